@@ -188,10 +188,32 @@ class Inliner:
         return sorted(out, key=lambda n: n.lineno)
 
 
+class _SliceFromZero(ast.NodeTransformer):
+    """`x[:n]` is `x[0:n]` (no step, or a positive constant step): one spelling for both"""
+    def visit_Slice(self, n):
+        self.generic_visit(n)
+        if n.lower is None and (n.step is None or (isinstance(n.step, ast.Constant) and isinstance(n.step.value, int) and n.step.value > 0)) \
+                and n.upper is not None:
+            n.lower = ast.Constant(value=0)
+        return n
+
+
+def canon_slices(node):
+    import copy
+    if not any(isinstance(x, ast.Slice) and x.lower is None and x.upper is not None for x in ast.walk(node)):
+        return node
+    return ast.fix_missing_locations(_SliceFromZero().visit(copy.deepcopy(node)))
+
+
 def norm_text(e):
-    """Whitespace / parenthesis / quote insensitive text of an expression."""
+    """Whitespace / parenthesis / quote insensitive text of an expression (slices `:n` spelled `0:n`)."""
     if isinstance(e, ast.AST):
-        e = ast.unparse(e)
+        e = ast.unparse(canon_slices(e))
+    elif '[:' in e or ',:' in e or ', :' in e:
+        try:
+            e = ast.unparse(canon_slices(ast.parse(e, mode='eval').body))
+        except SyntaxError:
+            pass
     return e.replace(' ', '').replace('\n', '').replace('"', "'")
 
 
@@ -206,7 +228,7 @@ def tree_key(text, subst=()):
     for a, b in subst:
         text = text.replace(a, b)
     try:
-        return ast.dump(ast.parse(text, mode='eval').body)
+        return ast.dump(canon_slices(ast.parse(text, mode='eval').body))
     except SyntaxError:
         return 'unparsable:' + text
 
